@@ -427,6 +427,29 @@ func runC11(t *vs.Tape, cfg map[string]string) (res vs.Result) {
 			return
 		}
 	}
+	// Quiescent end state: with every task finished (no rebuild in flight) the
+	// store must again answer every lookup exactly as a brute-force pass over the
+	// surviving RECORDS would - a stale or missing index entry left behind by
+	// interleaved writers would pair an index entry of one version with the record
+	// of another (or resurrect a ghost) in the very next scan.
+	final := timeline[len(timeline)-1]
+	fm := newStoreModel()
+	fm.threshold, fm.tolerance = final.thr, final.tol
+	for _, k := range final.keys {
+		if strings.HasPrefix(k, "sig:") {
+			var sg detection.Signature
+			if decodeSignature(final.vals[k], &sg) == nil {
+				fm.sigs[sg.ID] = sg
+			}
+		}
+	}
+	if v := checkAll(s, fm, scopeFull, false, "after all tasks finished: "); v != nil {
+		v.Class = "C11/final-state/" + v.Class
+		v.Msg += fmt.Sprintf("  [writers: %v]", wtrace)
+		res.Violation = v
+		return
+	}
+	c.Inc("final_states_checked")
 	c.Add("scans_overlapping_commit", int64(overlapping))
 	if len(pseenAll(timeline)) > 1 {
 		c.Inc("runs_with_param_change")
